@@ -23,6 +23,7 @@ import FuelVerif.Lemmas.Debug
 import FuelVerif.Model.Run
 import FuelVerif.Gen.VmGas
 import FuelVerif.Gen.Instructions
+import FuelVerif.Model.ReceiptsCtx
 namespace FuelVerif.Run
 open FuelVerif.Debug FuelVerif.Gen
 
@@ -350,6 +351,77 @@ theorem c29_model : C29Statement := by
   refine ⟨s', r, tr, h1, h2, h3, fun e he => ?_⟩
   subst he
   exact no_bug_no_internal_error m hnb _ _ _ _ _ h1
+
+/-! ### why `append_panic_receipt(..).expect("Appending a panic receipt cannot fail")` cannot panic the host
+
+`Sem.appendPanicReceipt` is total in the run-loop model; that is justified by the reserved-slot rule of
+`ReceiptsCtx::push` (Model/ReceiptsCtx.lean; the statement order and the exact text of the rule — only `ScriptResult`
+may enter slot MAX-1, only `ScriptResult`/`Panic` slot MAX-2 — are pinned fail-closed by the translators
+`receipts_ctx` and `outcome`). During a run every receipt pushed before the loop is left is neither a Panic nor a
+ScriptResult, so the list never grows beyond MAX-2, and then Panic and ScriptResult still fit, in this order. -/
+
+open FuelVerif.RCtx in
+/-- `push` in closed form, for the statement order the translator extracted -/
+theorem push_closed (s : RState) (r : Rc) :
+    push s r =
+      if s.receipts.length = Gen.ReceiptsCtx.maxReceipts then (s, some .bugReceiptsCtxFull)
+      else if (s.receipts.length = Gen.ReceiptsCtx.maxReceipts - 1 ∧ r.kind ≠ .scriptResult) ∨
+              (s.receipts.length = Gen.ReceiptsCtx.maxReceipts - 2 ∧ r.kind ≠ .scriptResult ∧ r.kind ≠ .panic)
+        then (s, some .tooManyReceipts)
+      else ({ receipts := s.receipts ++ [r], leaves := s.leaves ++ [r.enc] }, none) := by
+  have ho : Gen.ReceiptsCtx.pushOrder = ["full", "tail", "tree", "list"] := by decide
+  unfold push
+  rw [ho]
+  simp only [runStmts, pushStmt]
+  by_cases h1 : s.receipts.length = Gen.ReceiptsCtx.maxReceipts
+  · simp [h1]
+  · by_cases h2 : (s.receipts.length = Gen.ReceiptsCtx.maxReceipts - 1 ∧ r.kind ≠ .scriptResult) ∨
+        (s.receipts.length = Gen.ReceiptsCtx.maxReceipts - 2 ∧ r.kind ≠ .scriptResult ∧ r.kind ≠ .panic)
+    · simp [h1, h2]
+    · simp [h1, h2]
+
+open FuelVerif.RCtx in
+/-- pushing any sequence of receipts that are neither Panic nor ScriptResult (accepted or refused) never gets the
+list beyond MAX-2: the last two slots stay free -/
+theorem ordinary_receipts_leave_tail_free (rs : List Rc) (hk : ∀ r ∈ rs, r.kind = .other) :
+    ∀ (s : RState), s.receipts.length ≤ Gen.ReceiptsCtx.maxReceipts - 2 →
+      (rs.foldl (fun s r => (push s r).1) s).receipts.length ≤ Gen.ReceiptsCtx.maxReceipts - 2 := by
+  induction rs with
+  | nil => intro s h; exact h
+  | cons r rest ih =>
+    intro s h
+    simp only [List.foldl_cons]
+    apply ih (fun x hx => hk x (List.mem_cons_of_mem _ hx))
+    rw [push_closed]
+    have hr := hk r List.mem_cons_self
+    have hm : Gen.ReceiptsCtx.maxReceipts = 65535 := rfl
+    split
+    · exact h
+    · split
+      · exact h
+      · rename_i h1 h2
+        simp only [List.length_append, List.length_singleton]
+        simp only [hr, ne_eq, reduceCtorEq, not_false_eq_true, and_true, not_or] at h2
+        omega
+
+open FuelVerif.RCtx in
+/-- **Appending the panic receipt, then the script-result receipt, cannot fail** after any run prefix of ordinary
+receipts started from a cleared context -/
+theorem panic_then_script_result_fit (rs : List Rc) (hk : ∀ r ∈ rs, r.kind = .other) (p sr : Rc)
+    (hp : p.kind = .panic) (hsr : sr.kind = .scriptResult) :
+    let s := rs.foldl (fun s r => (push s r).1) {}
+    (push s p).2 = none ∧ (push (push s p).1 sr).2 = none ∧ (push s sr).2 = none := by
+  intro s
+  have hl : s.receipts.length ≤ Gen.ReceiptsCtx.maxReceipts - 2 :=
+    ordinary_receipts_leave_tail_free rs hk {} (by simp [Gen.ReceiptsCtx.maxReceipts])
+  have hm : Gen.ReceiptsCtx.maxReceipts = 65535 := rfl
+  refine ⟨?_, ?_, ?_⟩
+  · rw [push_closed]
+    rw [if_neg (by omega), if_neg (by simp [hp]; omega)]
+  · rw [push_closed s p, if_neg (by omega), if_neg (by simp [hp]; omega), push_closed]
+    simp only [List.length_append, List.length_singleton]
+    rw [if_neg (by omega), if_neg (by simp [hsr])]
+  · rw [push_closed, if_neg (by omega), if_neg (by simp [hsr])]
 
 /-! ### non-vacuity: a machine that burns one gas per instruction in an endless self-jump -/
 
